@@ -204,7 +204,7 @@ def pre_ip(rsel: int, xn: int, sels: List[int], g: str, tmask: int, mode: int) -
 
 @harness(
     pre=pre_ip,
-    quick=dict(NX=2, G=2, G2=1, NSEL=3, NT=2, NM=3, timeout=150, reach_timeout=150),
+    quick=dict(NX=2, G=2, G2=1, NSEL=3, NT=2, NM=3, timeout=300, reach_timeout=150),
     thorough=dict(NX=3, G=3, G2=2, NSEL=5, NT=4, NM=4, timeout=900, reach_timeout=300),
     nshards=dict(quick=18, thorough=24),
     reach=["real_ip_wins", "xff_rightmost_untrusted", "trusted_skipped", "garbage_falls_back", "all_trusted",
@@ -297,7 +297,7 @@ def pre_proto(ssel: int, sg: str, psel: int, pg: str, https: bool, withip: bool)
     quick=dict(G=2, timeout=150),
     thorough=dict(G=4, timeout=900),
     nshards=len(SCHEMES) + 2,
-    reach=["proto_rewritten", "proto_garbage_kept", "x_scheme_over_forwarded_proto", "free_text_is_scheme"],
+    reach=["proto_rewritten", "proto_garbage_kept", "x_scheme_over_forwarded_proto"],
     units=["httpserver._HTTPRequestContext._apply_xheaders/_unapply_xheaders", "httpserver._ProxyAdapter",
            "httpserver._CallableAdapter", "httputil.HTTPServerRequest.__init__"],
     stubs=["X-Scheme / X-Forwarded-Proto: absent, one of %r, or free text <= G cp (printable ASCII, SP, HTAB)" % (SCHEMES,),
